@@ -31,7 +31,7 @@ BackendBroken(x, b) ==
 
 (* an admitted, judged pair needs its backend *)
 NeedsBackend(x) ==
-    {HTTPBackend(x, k) : k \in {k2 \in HTTPSlots(x) : \E i \in ListenerIds : ~DontCare(x, k2, i) /\ AdmittedPair(x, k2, i)}}
+    {HTTPBackend(x, KeyOwner(x, key)) : key \in {k2 \in AllKeys(x) : ~KeyDontCare(x, k2) /\ KeyOwner(x, k2) # 0}}
     \cup {TCPBackend(x, TCPOwner(x, i)) : i \in {i2 \in ListenerIds : TCPOwner(x, i2) # 0 /\ ~\E k \in TCPSlots(x) : DontCare(x, k, i2)}}
 
 Verdicts(e) ==
@@ -40,7 +40,10 @@ Verdicts(e) ==
         V(inv, d) == [id |-> e.id, step |-> e.step, inv |-> inv, d |-> d] IN
     {V("Produced", ToString(p)) : p \in MissingRule(x, o)}
     \cup {V("NotProduced", ToString(p)) : p \in LeakedRule(x, o)}
+    \cup {V("OldestRouteWins", ToString(p)) : p \in WrongOwner(x, o)}
     \cup {V("NotProduced", ToString(u)) : u \in Unattributed(x, o)}
+    \* C06: the same objects, listed in another order by the API, give another configuration
+    \cup (IF e.det THEN {} ELSE {V("Deterministic", ToString(e.detdiff))})
     \cup {V("TCPPort", ToString(i)) : i \in TCPBad(x, o)}
     \cup {V("NotProduced", ToString(t)) : t \in TCPForeign(x, o)}
     \cup {V("Weighted:" \o BackendBroken(x, b), b.s) : b \in {b2 \in o.backs : BackendBroken(x, b2) # "none"}}
@@ -52,6 +55,7 @@ Count(e) ==
         P == {p \in [k : HTTPSlots(x), i : ListenerIds] : ~DontCare(x, p.k, p.i)} IN
     [adm |-> Cardinality({p \in P : AdmittedPair(x, p.k, p.i)}),
      rej |-> Cardinality({p \in P : ~AdmittedPair(x, p.k, p.i)}),
+     conflict |-> Cardinality({key \in AllKeys(x) : ~KeyDontCare(x, key) /\ Cardinality({k \in HTTPSlots(x) : MustHave(x, k, key)}) > 1}),
      tcpadm |-> Cardinality({i \in ListenerIds : TCPOwner(x, i) # 0 /\ ~\E k \in TCPSlots(x) : DontCare(x, k, i)}),
      weighted |-> Len(e.obs.backs)]
 
@@ -61,7 +65,7 @@ TraceNext ==
     /\ LET c == Count(Trace[l]) IN stat' = [f \in DOMAIN stat |-> stat[f] + c[f]]
     /\ UNCHANGED vars
 
-TraceInit == w = World0 /\ hist = <<>> /\ nmut = 0 /\ l = 1 /\ bad = {} /\ stat = [adm |-> 0, rej |-> 0, tcpadm |-> 0, weighted |-> 0]
+TraceInit == w = World0 /\ hist = <<>> /\ nmut = 0 /\ l = 1 /\ bad = {} /\ stat = [adm |-> 0, rej |-> 0, conflict |-> 0, tcpadm |-> 0, weighted |-> 0]
 TraceSpec == TraceInit /\ [][TraceNext]_<<vars, l, bad, stat>>
 Result == l = Len(Trace) + 1 => PrintT(<<"RESULT", ToJson([n |-> l - 1, bad |-> bad, stat |-> stat])>>)
 =============================================================================
